@@ -13,7 +13,7 @@ from vh import gen as G
 def units(tier):
     # every (program, hole) gets one (std, ignore_comments) combination, rotating; thorough uses the
     # larger program set and 3-character lexemes for the base programs
-    return PG.program_units(tier, "rt_prog", ics=(True, False), rotate=True) + rule_units(tier)
+    return PG.program_units(tier, "rt_prog", ics=(True, False), rotate=True) + rule_units(tier) + PG.corpus_units(tier, "rt_prog")
 
 
 def meta(tier):
